@@ -703,8 +703,13 @@ pub fn spec(id: &str, variant: &str, cancelable: bool, thorough: bool) -> Option
                 ops: (0, 30),
                 max_parents: 5,
                 unique_traces: false,
+                // closures handed to the attachment calls may draw ids themselves (open local
+                // spans, create spans) while the call is in progress
+                reentrant: true,
                 ..base.clone().set(&[
                     (K::EnterLocal, 18),
+                    (K::AddPropsH, 4),
+                    (K::AddEventH, 2),
                     (K::Many, 2),
                     // a long-lived worker thread: tens of thousands of scopes opened and closed before
                     (K::Churn, 1),
@@ -1113,7 +1118,10 @@ pub fn spec(id: &str, variant: &str, cancelable: bool, thorough: bool) -> Option
                 threads: (1, 2),
                 ops: (0, 26),
                 p_sampled: 0.8,
-                adapter_kinds: vec![AdapterKind::InSpan, AdapterKind::InSpanEnterOnPoll, AdapterKind::EnterOnPoll, AdapterKind::Stream, AdapterKind::Sink],
+                // TracedBoxed: a #[trace(properties)] function returning a boxed future; its property belongs
+                // to the call (often made with nothing in scope) and must not be evaluated by a later
+                // poll under somebody else's recording scope
+                adapter_kinds: vec![AdapterKind::InSpan, AdapterKind::InSpanEnterOnPoll, AdapterKind::EnterOnPoll, AdapterKind::Stream, AdapterKind::Sink, AdapterKind::TracedBoxed, AdapterKind::TracedBoxed],
                 ..base.clone().set(&[
                     (K::Noop, 10),
                     (K::Child, 12),
